@@ -352,9 +352,32 @@ def work(item):
             cp = byref(cs)
         if r:
             return r
+        # a query never writes to the crystal it is given - also not to "complete" a hand-made struct whose volume member is 0
+        snap = lambda c: (c.name, c.a, c.b, c.c, c.alpha, c.beta, c.gamma, c.volume, c.n_atom, tuple((c.atom[i].Zatom, c.atom[i].fraction, c.atom[i].x, c.atom[i].y, c.atom[i].z) for i in range(c.n_atom)))
+        vkeep = cs.volume
+        if via % 7 == 0:
+            cs.volume = 0.0
+        s0 = snap(cs)
+        L.call("Crystal_dSpacing", cp, h, k, l); L.call("Bragg_angle", cp, E, h, k, l); L.call("Q_scattering_amplitude", cp, E, h, k, l, rel)
+        L.call("Crystal_F_H_StructureFactor", cp, E, h, k, l, debye, rel); L.call("Crystal_UnitCellVolume", cp)
+        s1 = snap(cs)
+        cs.volume = vkeep
+        st.ev()
+        if s1 != s0:
+            return ("input-modified", dict(describe(cs), hkl=[h, k, l], E=E, volume_given=s0[7]), "crystal struct unchanged by queries", dict(volume_after=s1[7]))
+        if via % 5 == 2 and (h, k, l) != (0, 0, 0):
+            # the same cell with one more atom the library has no form factor for (or no element at all), never in first position: the structure
+            # factor must fail as a whole ({0,0} and an error) - and leave nothing behind for the valid crystal evaluated right after it
+            badz = (99, 100, 103, 0, 130, -1)[via % 6]
+            cs_bad = env.make(b"gen-bad", cell, list(atoms) + [(badz, 1.0, 0.1, 0.2, 0.3)])
+            st.ev()
+            Fb, eb = L.call("Crystal_F_H_StructureFactor", byref(cs_bad), max(E, 1.0), h, k, l, 1.0, rel)
+            if eb is None or Fb.re != 0.0 or Fb.im != 0.0:
+                return ("F:unusable-atom", dict(describe(cs_bad), hkl=[h, k, l], E=max(E, 1.0), bad_Z=badz), "error and {0,0}", dict(value=[Fb.re, Fb.im], error=eb))
+            st.cls("unusable_atom_cases")
         r = check_structure_factor(st, env, cp, (h, k, l), E, debye, rel, False)
         if r is None:
-            st.sample("generated", dict(cell=list(cell), natoms=len(atoms), hkl=[h, k, l], E=E), cap=2)
+            st.sample("generated", dict(cell=list(cell), natoms=len(atoms), hkl=[h, k, l], E=max(E, 1.0)), cap=2)
         return r
     kk = hyp.run_property(st, "generated", dict(cellatoms=cell_strategy(), h=MILLER, k=MILLER, l=MILLER, E=E_ST, debye=DEBYE, rel=REL, via=hs.integers(0, 999)), prop, n, sv)
     st.cls("examples_generated", kk)
